@@ -81,7 +81,7 @@ mod properties {
     pub fn read(mut bytes: &mut Bytes) -> Result<Option<UnsubscribeProperties>, Error> {
         let mut user_properties = Vec::new();
 
-        let (properties_len_len, properties_len) = length(bytes.iter())?;
+        let (properties_len_len, properties_len) = length_in_frame(bytes.iter())?;
         bytes.advance(properties_len_len);
 
         if properties_len == 0 {
